@@ -81,7 +81,7 @@ inductive K where
   deriving DecidableEq, Repr, Inhabited, Hashable
 
 inductive Tag where
-  | rh | rd | re | rx | sh | sd | se | sx
+  | rh | rd | rt | re | rx | sh | sd | st | se | sx
   deriving DecidableEq, Repr, Inhabited, Hashable
 
 /-- commands yielded by the stream (Log omitted) -/
@@ -141,6 +141,8 @@ structure Core where
   connect2xx : Bool := true
   reqBody : Bool := false      -- flow.request.raw_content non-empty
   respBody : Bool := false     -- flow.response.raw_content non-empty
+  reqTrailers : Bool := false  -- flow.request.trailers set (HTTP/2, HTTP/3)
+  respTrailers : Bool := false -- flow.response.trailers set
   -- ghost
   attached : Bool := false     -- request headers were sent to a server connection
   dropped : Bool := false      -- DropStream emitted
@@ -205,10 +207,12 @@ inductive AEv where
   | reqHeaders (endStream : Bool) (kind : ReqKind) (ws : Bool) (v : Verdict)
   | reqData (v : Verdict)                 -- v: check_body_size on the buffer *after* appending (only used in consume)
   | reqEOM (nonEmpty : Bool)              -- nonEmpty: the buffered body is non-empty (only used in consume)
+  | reqTrailers
   | reqErr
   | respHeaders (endStream : Bool) (kind : RespKind) (v : Verdict)
   | respData (v : Verdict)
   | respEOM (nonEmpty : Bool)
+  | respTrailers
   | respErr
   | hookDone (h : Hook) (a : Action)
   | connDone (ok : Bool)
@@ -312,7 +316,9 @@ def clientEvent (c : Core) (ev : AEv) : W :=
   | .consume, .reqData .stream =>   -- check_body_size step 3: `if request and not self.flow.response`
     if c.hasResp then mk c [] else startRequestStream { c with reqStream := true } true
   | .consume, .reqEOM ne => fire { c with cs := .done, reqBody := ne } .request .requestHook
+  | .consume, .reqTrailers => mk { c with reqTrailers := true } []
   | .stream, .reqData _ => mk c [.send false .rd]
+  | .stream, .reqTrailers => mk { c with reqTrailers := true } []   -- sent after the request hook
   | .stream, .reqEOM _ => fire c .request .requestHookStream
   | .errored, _ => mk c []
   | _, _ => crash c                     -- @expect(...) AssertionError
@@ -321,18 +327,20 @@ def serverEvent (c : Core) (ev : AEv) : W :=
   match c.ss, ev with
   | .waitHdr, .respHeaders e kind v =>
     match (if e then Verdict.ok else v) with
-    | .tooLarge => fire { c with hasResp := true, respKind := kind, respStream := false } .responseheaders (.cbsHdr false)
+    | .tooLarge => fire { c with hasResp := true, respKind := kind, respStream := false, respTrailers := false } .responseheaders (.cbsHdr false)
     | v' =>
       if kind == .invalid then   -- check_invalid(False)
-        (fire { c with hasResp := true, respKind := kind, respStream := v' == .stream, err := .other } .error (.invErr false)).pre [.closeServer]
-      else fire { c with hasResp := true, respKind := kind, respStream := v' == .stream } .responseheaders (.respHeadersHook e)
+        (fire { c with hasResp := true, respKind := kind, respStream := v' == .stream, respTrailers := false, err := .other } .error (.invErr false)).pre [.closeServer]
+      else fire { c with hasResp := true, respKind := kind, respStream := v' == .stream, respTrailers := false } .responseheaders (.respHeadersHook e)
   | .consume, .respData .ok => mk c []
   | .consume, .respData .tooLarge => cbsErrFire c false
   | .consume, .respData .stream =>
     -- start_response_stream, then the buffered data is re-dispatched as ResponseData
     mk { c with respStream := true, ss := .stream } [.send true .sh, .send true .sd]
   | .consume, .respEOM ne => sendResponse { c with respBody := ne } false
+  | .consume, .respTrailers => mk { c with respTrailers := true } []
   | .stream, .respData _ => mk c [.send true .sd]
+  | .stream, .respTrailers => mk { c with respTrailers := true } []  -- sent after the response hook
   | .stream, .respEOM _ => sendResponse c true
   | .errored, _ => mk c []
   | _, _ => crash c
@@ -343,9 +351,9 @@ def serverEvent (c : Core) (ev : AEv) : W :=
     newer ones, so the order-related rules are not assumed any more. -/
 def grammarOk (c : Core) : AEv → Bool
   | .reqHeaders .. => !c.seenReqHdr && (c.stale || !c.procReqErr)
-  | .reqData _ | .reqEOM _ => c.stale || !c.procReqErr
+  | .reqData _ | .reqEOM _ | .reqTrailers => c.stale || !c.procReqErr
   | .reqErr => true
-  | .respHeaders .. | .respData _ | .respEOM _ | .respErr => c.attached
+  | .respHeaders .. | .respData _ | .respEOM _ | .respTrailers | .respErr => c.attached
   | _ => false
 
 def badCore : Core := { bad := true, cs := .errored, ss := .errored }
@@ -361,7 +369,7 @@ def procEv (c : Core) (ev : AEv) (peek : Bool) (queued : Bool) : W :=
       | .reqErr => handlePE { c with draining := q, procReqErr := true } false .top peek
       | .respErr => handlePE { c with draining := q } true .top peek
       | .reqHeaders .. => clientEvent { c with draining := q, seenReqHdr := true } ev
-      | .reqData _ | .reqEOM _ => clientEvent { c with draining := q } ev
+      | .reqData _ | .reqEOM _ | .reqTrailers => clientEvent { c with draining := q } ev
       | _ => serverEvent { c with draining := q } ev
 
 -- ------------------------------------------------------------------------------------------------
@@ -371,7 +379,7 @@ def applyAction (c : Core) (h : Hook) : Action → Core
   | .pass => c
   | .kill =>   -- `if flow.killable: flow.kill()`
     { c with err := if c.live && c.err != .killed then .killed else c.err, live := c.live && c.err == .killed }
-  | .resp => { c with hasResp := true, respKind := .norm, respStream := false, respBody := true, connect2xx := true }
+  | .resp => { c with hasResp := true, respKind := .norm, respStream := false, respBody := true, respTrailers := false, connect2xx := true }
   | .stream =>
     { c with reqStream := c.reqStream || (h == .requestheaders || h == .request),
              respStream := c.respStream || (!(h == .requestheaders || h == .request) && c.hasResp) }
@@ -396,8 +404,9 @@ def resume (c : Core) (k : K) (ok : Bool) (peek : Bool) : W :=
       else mk { c with attached := true, cs := .stream, ss := .waitHdr, m := mon c.m .streamStart } [.send false .rh, .streamStart]
     else handlePE c true (if late then .streamLate else .streamHdr) peek
   | .requestHookStream =>
-    if c.ss == .done then flowDone { c with cs := .done } [.send false .re]
-    else mk { c with cs := .done } [.send false .re]
+    -- trailers are delayed until after the request hook
+    if c.ss == .done then flowDone { c with cs := .done } (outIf c.reqTrailers (.send false .rt) ++ [.send false .re])
+    else mk { c with cs := .done } (outIf c.reqTrailers (.send false .rt) ++ [.send false .re])
   | .requestHook =>
     if killedNow c peek then killedFire c peek
     else if c.hasResp then fire c .responseheaders .respHeadersEmul
@@ -406,7 +415,7 @@ def resume (c : Core) (k : K) (ok : Bool) (peek : Bool) : W :=
     if killedNow c peek then killedFire c peek
     else sendResponse c false
   | .conn =>
-    if ok then mk { c with attached := true } ([.send false .rh] ++ outIf c.reqBody (.send false .rd) ++ [.send false .re])
+    if ok then mk { c with attached := true } ([.send false .rh] ++ outIf c.reqBody (.send false .rd) ++ outIf c.reqTrailers (.send false .rt) ++ [.send false .re])
     else handlePE c true .top peek
   | .respHeadersHook e =>
     if killedNow c peek then killedFire c peek
@@ -415,8 +424,8 @@ def resume (c : Core) (k : K) (ok : Bool) (peek : Bool) : W :=
   | .responseHook already =>
     if killedNow c peek then killedSilent { c with ss := .done } peek
     else if c.cs == .done then
-      flowDone { c with ss := .done } (outIf (!already) (.send true .sh) ++ outIf (!already && c.respBody) (.send true .sd))
-    else mk { c with ss := .done } (outIf (!already) (.send true .sh) ++ outIf (!already && c.respBody) (.send true .sd))
+      flowDone { c with ss := .done } (outIf (!already) (.send true .sh) ++ outIf (!already && c.respBody) (.send true .sd) ++ outIf c.respTrailers (.send true .st))
+    else mk { c with ss := .done } (outIf (!already) (.send true .sh) ++ outIf (!already && c.respBody) (.send true .sd) ++ outIf c.respTrailers (.send true .st))
   | .killedErr => killedSilent c false
   | .peErr isResp ret => peAfter c isResp ret peek
   | .cbsHdr request => cbsErrFire c request
@@ -457,10 +466,12 @@ inductive Ev where
   | reqHeaders (endStream : Bool) (esize : Nat) (kind : ReqKind) (ws : Bool)
   | reqData (n : Nat)
   | reqEOM
+  | reqTrailers
   | reqErr
   | respHeaders (endStream : Bool) (esize : Nat) (kind : RespKind)
   | respData (n : Nat)
   | respEOM
+  | respTrailers
   | respErr
   | hookDone (h : Hook) (a : Action)
   | connDone (ok : Bool)
@@ -499,6 +510,8 @@ def abstractEv (s : St) : Ev → AEv
   | .reqData n => .reqData (verdict s.limit s.thresh (s.reqBuf + n))
   | .reqEOM => .reqEOM (decide (s.reqBuf > 0))
   | .reqErr => .reqErr
+  | .reqTrailers => .reqTrailers
+  | .respTrailers => .respTrailers
   | .respHeaders e n k => .respHeaders e k (verdict s.limit s.thresh n)
   | .respData n => .respData (verdict s.limit s.thresh (s.respBuf + n))
   | .respEOM => .respEOM (decide (s.respBuf > 0))
